@@ -27,7 +27,7 @@ RES = ["r0", "r1", "r2"]
 class Site:
     """one call site inside a task body"""
 
-    def __init__(self, callee, limits=None, scope=None, prov=None, executor=None, ctx=None, cse_off=False):
+    def __init__(self, callee, limits=None, scope=None, prov=None, executor=None, ctx=None, cse_off=False, same=False):
         self.callee = callee          # index of the called definition
         self.limits = limits          # None | list of names | dict name -> count
         self.scope = scope            # None | "NONE" | "CSE" | "BACKEND"
@@ -35,6 +35,7 @@ class Site:
         self.executor = executor      # None | "nope"
         self.ctx = ctx                # None | dict (update_context)
         self.cse_off = cse_off        # allowed_cache_results without CSE
+        self.same = same              # the very same expression as the previous site of this body (one Job: `_pending_expr`)
 
     def to_json(self):
         return {k: v for k, v in self.__dict__.items() if v is not None and not (v is False and k != "prov")}
@@ -114,10 +115,15 @@ class Program:
             sp = self.specs[i]
             d = self.defs[sp["callee"]]
             if not d.fails:
-                for st in d.sites:
+                sp["site_child"] = []          # site index -> index into children (equal expressions share one child job)
+                for n, st in enumerate(d.sites):
+                    if st.same and n > 0:
+                        sp["site_child"].append(sp["site_child"][-1])
+                        continue
                     if len(self.specs) >= max_specs:
                         raise ValueError("program too large")
                     ch = mk(st, sp["ctxd"], sp["prov"])
+                    sp["site_child"].append(len(sp["children"]))
                     sp["children"].append(len(self.specs))
                     self.specs.append(ch)
             i += 1
@@ -134,7 +140,7 @@ class Program:
         head = ["k%d" % sp["callee"]]
         if d.reads_ctx:
             head += [sp["ctxd"].get("a", 0), sp["ctxd"].get("b", 0)]
-        return head + [self.expected(c) for c in sp["children"]]
+        return head + [self.expected(sp["children"][k]) for k in sp.get("site_child", [])]
 
     def model_specs(self, pre=None):
         out = []
@@ -151,7 +157,7 @@ class Program:
 
 
 def gen_program(rng, n_defs=None, max_sites=3, p_fail=0.15, p_limits=0.6, p_opt=0.25, p_ctx=0.15, p_dup=0.5,
-                allow_fail=True, allow_ctx=True, allow_optout=True, allow_badexec=True):
+                allow_fail=True, allow_ctx=True, allow_optout=True, allow_badexec=True, p_same=0.0):
     """Random program.  Duplicated calls (same callee from several sites) are frequent on purpose."""
     for _ in range(50):
         n = n_defs or rng.choice([2, 3, 3, 4, 4, 5, 6])
@@ -179,6 +185,8 @@ def gen_program(rng, n_defs=None, max_sites=3, p_fail=0.15, p_limits=0.6, p_opt=
                     if allow_ctx and rng.random() < p_ctx:
                         st.ctx = rng.choice([{"a": 1}, {"a": 2}, {"b": 1}, {"a": 1}, {"a": 0}])
                     sites.append(st)
+                    if p_same and rng.random() < p_same:
+                        sites.append(Site(callee, same=True))       # the same expression once more
             reads = allow_ctx and not sites and not fails and rng.random() < 0.5
             defs.append(Defn(fails, sites, lim, reads_ctx=reads))
         cfg = {}
@@ -254,7 +262,11 @@ def build_real(p: Program):
             if d.fails:
                 raise ValueError("boom%d" % i)
             kids = p.specs[my_spec]["children"]
-            return ["k%d" % i] + extra + [call(st, kids[n]) for n, st in enumerate(d.sites)]
+            sc_ = p.specs[my_spec]["site_child"]
+            first = {}
+            for n in range(len(d.sites)):
+                first.setdefault(sc_[n], n)
+            return ["k%d" % i] + extra + [call(d.sites[first[sc_[n]]], kids[sc_[n]]) for n in range(len(d.sites))]
         if d.reads_ctx:
             def body(a=get_context("a", 0), b=get_context("b", 0)):
                 return run_body([a, b])
@@ -312,6 +324,8 @@ class TracedCtl(ctl_sched.Ctl):
         self.opt_counts = []
         self.taken = []
         self.script = None
+        self.all_jobs = []
+        self.expr_jobs = {}      # (parent job, expression hash) -> jobs created for it
 
     def remember(self, job):
         """Spec id of a real Job = its position in the job tree (parent's spec, index among the parent's
@@ -326,7 +340,12 @@ class TracedCtl(ctl_sched.Ctl):
         else:
             pv = self.remember(par)
             idx = next(i for i, c in enumerate(par.child_jobs) if c is job)
-            v = self.program.specs[pv]["children"][idx]
+            kids = self.program.specs[pv]["children"] if pv >= 0 else []
+            v = kids[idx] if idx < len(kids) else -1      # -1: a job the program has no position for
+            if job.expr is not None:
+                k = (id(par), job.expr.get_hash())
+                self.expr_jobs.setdefault(k, []).append(job)
+        self.all_jobs.append(job)                          # strong references: ids stay unique
         job._vid = v
         return v
 
@@ -419,10 +438,60 @@ def _run_job(self, job):
 TracedCtl.run_job = _run_job
 
 
+def _count_job_creations():
+    """harness-side: count `Job` objects created (to see whether an `_evaluate_apply` call started a new evaluation)"""
+    import redun.scheduler as rs
+    if not hasattr(rs, "_verif_job_count"):
+        rs._verif_job_count = [0]
+        orig_init = rs.Job.__init__
+
+        def init(self, *a, **kw):
+            rs._verif_job_count[0] += 1
+            orig_init(self, *a, **kw)
+        rs.Job.__init__ = init
+    return rs._verif_job_count
+
+
 def attach_traced(ctl: TracedCtl, sched):
     ctl.attach(sched)
     sched.events_queue = TracedQueue(ctl)
+    # the `_pending_expr` history: ("e", parent, expression hash, started a new Job?) | ("f", parent)
+    from redun.expression import TaskExpression
+    counter = _count_job_creations()
+    ctl.memo_log, ctl.memo_refs, ids = [], [], {}
+
+    def key(obj):
+        if id(obj) not in ids:
+            ids[id(obj)] = len(ids)
+            ctl.memo_refs.append(obj)
+        return ids[id(obj)]
+    orig_apply, orig_final = sched._evaluate_apply, sched._finalize_job
+
+    def traced_apply(expr, parent_job=None):
+        n0 = counter[0]
+        try:
+            return orig_apply(expr, parent_job=parent_job)
+        finally:
+            if type(expr) is TaskExpression:
+                ctl.memo_log.append(("e", key(parent_job), expr.get_hash(), counter[0] > n0))
+
+    def traced_final(job):
+        ctl.memo_log.append(("f", key(job)))
+        return orig_final(job)
+    sched._evaluate_apply, sched._finalize_job = traced_apply, traced_final
     return sched
+
+
+def memo_request(log):
+    """model request for a `_pending_expr` history and the real 'started' flags"""
+    hs, ops, flags = {}, [], []
+    for it in log:
+        if it[0] == "e":
+            ops.append("(e i%d i%d)" % (it[1], hs.setdefault(it[2], len(hs))))
+            flags.append(it[3])
+        else:
+            ops.append("(f i%d)" % it[1])
+    return "memo " + " ".join(ops), flags
 
 
 def run_real(p: Program, decisions=None, rng=None, dryrun=False, sched=None, p_complete=0.3, after_event=None,
